@@ -1,8 +1,8 @@
-import GqlProofs.Validate.OverlapFuel
+import GqlProofs.Validate.OverlapCost
 import GqlProofs.Validate.OpEvents
 /-
-  OverlappingFieldsCanBeMerged, part 3: the rule never panics and never runs out of fuel inside
-  `Validate`.
+  OverlappingFieldsCanBeMerged: the rule never panics and never runs out of fuel inside
+  `Validate`, and the number of comparison steps it takes over a whole validation.
 
   The rule's state (`comparedFragmentPairs`) has an invariant — symmetry, see OverlapPairs — on
   which the termination argument of `check` rests, so the statement is not `Rule.NeverPanics`
@@ -54,40 +54,57 @@ theorem runAll_safe {Pe : Event → Prop} {s : SV} {d : QueryDoc} :
 
 /- ---------- the rule ---------- -/
 
-/-- every observer call returns normally from a symmetric `comparedFragmentPairs` and leaves it
-    symmetric -/
-theorem overlappingFieldsStep_ok (s : SV) (d : QueryDoc) (P : Pairs) (e : Event) (hP : PSym P) :
-    ∃ P' errs, overlappingFieldsStep s d P e = .ok P' errs ∧ PSym P' := by
+/-- the selection set an observer of the rule works on (`none`: the rule ignores the event) -/
+def eventSels (e : Event) : Option Selections :=
+  match e.p with
+  | .operation op _ => some op.sel
+  | .field f _ _ => if e.cur.isNone then none else some f.sel
+  | .inlineFragment f _ => some f.sel
+  | .fragment f _ => some f.sel
+  | _ => none
+
+/-- the step bound of the observer call an event triggers -/
+def eventBound (d : QueryDoc) (e : Event) : Nat :=
+  match eventSels e with
+  | some sels => overlapStepBound d sels
+  | none => 0
+
+/-- every observer call returns normally from a state whose fragment-pair memo is symmetric, leaves
+    it symmetric, and takes at most `eventBound d e` comparison steps -/
+theorem overlappingFieldsStep_ok (s : SV) (d : QueryDoc) (st : OSt) (e : Event) (hP : PSym st.pairs) :
+    ∃ st' errs, overlappingFieldsStep s d st e = .ok st' errs ∧ PSym st'.pairs ∧
+      st'.steps ≤ st.steps + eventBound d e := by
   have run : ∀ (parent : Option Definition) (sels : Selections),
-      ∃ P' errs, (match overlapRun s d e.links parent sels P with
+      ∃ st' errs, (match overlapRun s d e.links parent sels st with
         | none => StepOut.panic overlapOutOfFuel
-        | some (P', cs) => StepOut.ok P' (cs.map Conflict.toErr)) = .ok P' errs ∧ PSym P' := by
+        | some (st', cs) => StepOut.ok st' (cs.map Conflict.toErr)) = .ok st' errs ∧ PSym st'.pairs ∧
+        st'.steps ≤ st.steps + overlapStepBound d sels := by
     intro parent sels
-    obtain ⟨⟨P', cs⟩, h, a⟩ := overlapRun_ok s d e.links parent sels P hP
+    obtain ⟨⟨st', cs⟩, h, a, _, k⟩ := overlapRun_ok s d e.links parent sels st hP
     rw [h]
-    exact ⟨P', _, rfl, a.1⟩
-  unfold overlappingFieldsStep
+    exact ⟨st', _, rfl, a, k⟩
+  unfold overlappingFieldsStep eventBound eventSels
   simp only
   cases hp : e.p with
   | operation op u => exact run _ _
   | field f parent dfn =>
     simp only
     split
-    · exact ⟨P, [], rfl, hP⟩
+    · exact ⟨st, [], rfl, hP, Nat.le_add_right _ _⟩
     · exact run _ _
   | inlineFragment f parent => exact run _ _
   | fragment f dfn => exact run _ _
-  | fragmentSpread f dfn parent => exact ⟨P, [], rfl, hP⟩
-  | directive dd dfn parent loc => exact ⟨P, [], rfl, hP⟩
-  | directiveList ds => exact ⟨P, [], rfl, hP⟩
-  | value v ex dfn => exact ⟨P, [], rfl, hP⟩
-  | «variable» v dfn => exact ⟨P, [], rfl, hP⟩
+  | fragmentSpread f dfn parent => exact ⟨st, [], rfl, hP, Nat.le_add_right _ _⟩
+  | directive dd dfn parent loc => exact ⟨st, [], rfl, hP, Nat.le_add_right _ _⟩
+  | directiveList ds => exact ⟨st, [], rfl, hP, Nat.le_add_right _ _⟩
+  | value v ex dfn => exact ⟨st, [], rfl, hP, Nat.le_add_right _ _⟩
+  | «variable» v dfn => exact ⟨st, [], rfl, hP, Nat.le_add_right _ _⟩
 
 /-- the only panic outcome the rule model has at all is the out-of-fuel marker (there is no Go
     panic site in the repaired rule: `Schema.Types[...]` is nil-guarded in `doTypesConflict`, every
     link is nil-checked before it is dereferenced, `Children[i]` is guarded by the length test) -/
-theorem overlappingFieldsStep_panic_only_fuel (s : SV) (d : QueryDoc) (P : Pairs) (e : Event) (m : Bytes)
-    (h : overlappingFieldsStep s d P e = .panic m) : m = overlapOutOfFuel := by
+theorem overlappingFieldsStep_panic_only_fuel (s : SV) (d : QueryDoc) (st : OSt) (e : Event) (m : Bytes)
+    (h : overlappingFieldsStep s d st e = .panic m) : m = overlapOutOfFuel := by
   unfold overlappingFieldsStep at h
   simp only at h
   repeat' split at h
@@ -96,9 +113,45 @@ theorem overlappingFieldsStep_panic_only_fuel (s : SV) (d : QueryDoc) (P : Pairs
     | cases h
 
 theorem overlap_safe (Pe : Event → Prop) : Running.Safe Pe overlappingFieldsCanBeMerged.start := by
-  refine ⟨PSym, PSym_nil, ?_⟩
+  refine ⟨fun st => PSym st.pairs, PSym_nil, ?_⟩
   intro s d st e _ hst
-  exact overlappingFieldsStep_ok s d st e hst
+  obtain ⟨st', errs, h, hp, _⟩ := overlappingFieldsStep_ok s d st e hst
+  exact ⟨st', errs, h, hp⟩
+
+/- ---------- the whole validation ---------- -/
+
+/-- the manager states the engine threads for this rule over an event list (the engine steps a
+    rule on every event with the state its previous step returned: `Running.step`, `stepAll`) -/
+def overlapFold (s : SV) (d : QueryDoc) : OSt → List Event → Option OSt
+  | st, [] => some st
+  | st, e :: es =>
+    match overlappingFieldsStep s d st e with
+    | .ok st' _ => overlapFold s d st' es
+    | .panic _ => none
+
+def sumBounds (d : QueryDoc) (evs : List Event) : Nat := sumNat (evs.map (eventBound d))
+
+/-- over any event list the rule takes at most the sum of the per-call bounds -/
+theorem overlapFold_steps (s : SV) (d : QueryDoc) : ∀ (evs : List Event) (st : OSt), PSym st.pairs →
+    ∃ st', overlapFold s d st evs = some st' ∧ PSym st'.pairs ∧ st'.steps ≤ st.steps + sumBounds d evs
+  | [], st, hP => ⟨st, rfl, hP, Nat.le_add_right _ _⟩
+  | e :: es, st, hP => by
+    obtain ⟨st1, errs, h1, p1, k1⟩ := overlappingFieldsStep_ok s d st e hP
+    obtain ⟨st2, h2, p2, k2⟩ := overlapFold_steps s d es st1 p1
+    refine ⟨st2, by simp only [overlapFold, h1, h2], p2, ?_⟩
+    simp only [sumBounds, List.map_cons, sumNat_cons] at k2 ⊢
+    omega
+
+/-- `overlapFold` is what the engine does with the rule's state: one engine step on the running
+    rule is one `overlappingFieldsStep` -/
+theorem overlap_running_step (s : SV) (d : QueryDoc) (st : OSt) (e : Event) :
+    Running.step s d { rule := overlappingFieldsCanBeMerged, st := st } e =
+      match overlappingFieldsStep s d st e with
+      | .ok st' errs => .ok ({ rule := overlappingFieldsCanBeMerged, st := st' },
+          errs.map (RErr.toErr overlappingFieldsCanBeMerged.name))
+      | .panic m => .error m := by
+  simp only [Running.step, overlappingFieldsCanBeMerged]
+  cases overlappingFieldsStep s d st e <;> rfl
 
 /-- rule lists made of never-panicking rules, KnownRootType and OverlappingFieldsCanBeMerged always
     return an error list on documents whose operation kinds the parser can produce -/
